@@ -261,7 +261,9 @@ Theorem C04_sender_fc_refines : forall s,
 Proof. exact fc_refines. Qed.
 Print Assumptions C04_sender_fc_refines.
 
-(** (a) for every history: per stream, the payload of all first transmissions = writeOffset = what
+(** (a) for every history — for STREAM frames only: the final size announced by a RESET_STREAM_AT is
+    NOT covered by this or any other theorem (open finding reset-final-size-beyond-*-limit) —
+    per stream, the payload of all first transmissions = writeOffset = what
     the stream controller counted, and it is within the stream's send limit; summed over the
     streams it is what the connection controller counted, within the connection's send limit. *)
 Theorem C04_sender_glue_within_credit : forall ops, Forall gop_ok ops ->
@@ -336,25 +338,41 @@ Theorem C04_initial_send_window_rfc_table : forall p n,
 Proof. exact init_send_window_rfc_table. Qed.
 Print Assumptions C04_initial_send_window_rfc_table.
 
-(** the same function seeds the SendStream-level composition (SendGlue): a stream created with it
-    has exactly that limit, so C04_sender_glue_within_credit bounds it by the class limit until a
-    MAX_STREAM_DATA raises it (C04_sender_glue_limits_advertised). *)
-Theorem C04_sender_glue_initial_window_is_class_limit : forall client sid rsa p cw,
-  fcWindow (SendStream.Model.init sid rsa (init_send_window client sid p) cw) = init_send_window client sid p.
-Proof. reflexivity. Qed.
-Print Assumptions C04_sender_glue_initial_window_is_class_limit.
+(** (SendGlue's streams are created with an arbitrary initial limit [swin >= 0]; instantiating it
+    with [init_send_window] makes C04_sender_glue_within_credit a bound by the class limit until a
+    MAX_STREAM_DATA raises it — [fcWindow (init sid rsa swin cw) = swin] holds by definition.) *)
 
-(** All histories of the connection glue ([cop_ok]: wire values and write sizes are >= 0): every
-    stream stays within the largest limit the peer advertised for its class or in a
-    MAX_STREAM_DATA ([g_lims], computed from the ops alone), all streams together within the
-    largest initial_max_data / MAX_DATA. *)
+(** All histories of the connection glue ([cop_ok]: wire values and write sizes are >= 0), against an
+    OBSERVER that sees only each call and its return value ([ostep]; perspective given): which
+    transport parameters the peer has shown (from the moment they are shown, not from the moment the
+    implementation applies them), for every successfully opened stream — the returned ID tells
+    its class — the largest limit those parameter sets or a MAX_STREAM_DATA gave it, the largest
+    initial_max_data / MAX_DATA; a successful 0-RTT rejection voids streams and connection limit.
+    Every stream stays within the observer's limit for it, all streams together within the
+    observer's connection limit. [cowf]: after a 0-RTT rejection the handshake's parameters arrive
+    before the handshake completes and before a stream is opened (the order connection.go
+    guarantees: handleTransportParameters precedes handleHandshakeComplete). *)
 Theorem C04_connglue_within_peer_limit : forall client ops, Forall cop_ok ops ->
+  cowf client (cg_init client) (mkOS None [] 0 false) ops ->
+  let c := fst (corun client (cg_init client) (mkOS None [] 0 false) ops) in
+  let o := snd (corun client (cg_init client) (mkOS None [] 0 false) ops) in
+  Forall2 (fun s il => cs_id s = fst il /\ 0 <= bytesSent (cs_fc s) <= snd il) (cc_streams c) (o_lims o) /\
+  sumf fSentC (cc_streams c) = bytesSent (cc_conn c) /\ bytesSent (cc_conn c) <= o_clim o.
+Proof. exact connglue_within_observed_limit. Qed.
+Print Assumptions C04_connglue_within_peer_limit.
+
+(** The same bound against the MODEL's own bookkeeping [ghstep] (it reads the model state: which
+    parameters the implementation currently holds / has applied), for all histories without the
+    ordering requirement: a stream never exceeds the limits the implementation has APPLIED to it.
+    This is the invariant the proof of the theorem above goes through; it is not a specification
+    independent of the model. *)
+Theorem C04_connglue_within_applied_limit : forall client ops, Forall cop_ok ops ->
   let c := fst (cgrun (cg_init client) (ConnGlueProofs.mkGh [] 0) ops) in
   let g := snd (cgrun (cg_init client) (ConnGlueProofs.mkGh [] 0) ops) in
   Forall2 (fun s l => 0 <= bytesSent (cs_fc s) <= l) (cc_streams c) (g_lims g) /\
   sumf fSentC (cc_streams c) = bytesSent (cc_conn c) /\ bytesSent (cc_conn c) <= g_clim g.
 Proof. exact connglue_within_peer_limit. Qed.
-Print Assumptions C04_connglue_within_peer_limit.
+Print Assumptions C04_connglue_within_applied_limit.
 
 Example C04_connglue_example :
   Forall cop_ok cg_ex /\
@@ -364,6 +382,14 @@ Example C04_connglue_example :
   g_lims (snd (cgrun (cg_init true) (ConnGlueProofs.mkGh [] 0) cg_ex)) = [150; 151; 152].
 Proof. exact connglue_example. Qed.
 Print Assumptions C04_connglue_example.
+
+(** the same history is well-ordered; the observer's limits for the three streams (IDs 0, 2, 1) *)
+Example C04_connglue_example_observer :
+  cowf true (cg_init true) (mkOS None [] 0 false) cg_ex /\
+  o_lims (snd (corun true (cg_init true) (mkOS None [] 0 false) cg_ex)) = [(0, 150); (2, 151); (1, 152)] /\
+  o_clim (snd (corun true (cg_init true) (mkOS None [] 0 false) cg_ex)) = 5000.
+Proof. exact connglue_example_observer. Qed.
+Print Assumptions C04_connglue_example_observer.
 
 (** one stream's share of a drain: if it still has data while the connection has credit left, it
     stopped EXACTLY at its window; a STREAM_DATA_BLOCKED carries exactly that window (= the offset
@@ -377,3 +403,34 @@ Theorem C04_connglue_blocked_at_limit : forall s conn l s1 c1 e blk,
   sendWindow (cs_fc s1) = sendWindow (cs_fc s).
 Proof. exact drain_stream_exact. Qed.
 Print Assumptions C04_connglue_blocked_at_limit.
+
+(** ** Composition with C03 (audit round): the receive-side caller discipline assumed above
+    ([op_ok (SRead i n)]: a read consumes at most received - read; [rop_ok (ORead n called cls)]: bytes
+    delivered <= received, io.EOF only at the final offset, the cancellation error only when the
+    cancellation is effective) is what C03's model of receive_stream.go over the frame sorter
+    guarantees for every Read in every reachable state of ITS histories: the bytes delivered are
+    >= 0 and <= the request, the read position advances by exactly that much and stays <= the
+    flow controller's highestReceived; io.EOF only with the final size known and readPos = final
+    size = highestReceived; a cancellation error only when cancelled locally or the remote
+    cancellation is effective (reliableSize <= readPos). [S] = the stream contents.
+    Not a Coq theorem: that C03's [rpos] / [fc_highest] / [finalOffset] and RecvModel's [readPos] /
+    [highestReceived] / [finalOffset] are the same Go fields (each model is replayed against the
+    code by its own unit), and that AddBytesRead is called with exactly the bytes delivered (the
+    recvglue monitor read-accounting checks it on every Read). *)
+From V Require FrameSorter.Model RecvStream.Model RecvStream.Spec RecvStream.ProofsRecv FlowCtl.RecvCompose.
+
+Theorem C04_read_discipline_from_C03 : forall (S : Z -> Z) w ops r n s' d e bug,
+  0 <= w < FrameSorter.Model.MaxBC -> Forall RecvStream.Spec.rvalid ops ->
+  RecvStream.Spec.rsrun S (RecvStream.Spec.rrun_init w) ops = Some r -> 0 <= n ->
+  RecvStream.Model.Read (RecvStream.Spec.rr_st r) n = (s', d, e, bug) ->
+  0 <= FrameSorter.Model.len d <= n /\
+  RecvStream.Model.rpos s' = RecvStream.Model.rpos (RecvStream.Spec.rr_st r) + FrameSorter.Model.len d /\
+  RecvStream.Model.rpos s' <= RecvStream.Model.fc_highest s' /\
+  (e = RecvStream.Model.EEOF ->
+     RecvStream.Model.fc_final s' = true /\ RecvStream.Model.rpos s' = RecvStream.Model.finalOffset s' /\
+     RecvStream.Model.finalOffset s' = RecvStream.Model.fc_highest s') /\
+  (forall c r0, e = RecvStream.Model.ECancel c r0 ->
+     RecvStream.Model.cancelledLocally s' = true \/
+     (RecvStream.Model.cancelledRemotely s' = true /\ RecvStream.Model.reliableSize s' <= RecvStream.Model.rpos s')).
+Proof. exact FlowCtl.RecvCompose.read_discipline_reachable. Qed.
+Print Assumptions C04_read_discipline_from_C03.
